@@ -123,6 +123,9 @@ type ZkOp struct {
 // answer (the connection stays open and silent).
 type ZkHook interface {
 	BeforeZk(client string, op string, path string) (errCode int32, hang bool)
+	// AfterZk runs after the operation was applied and before the answer is sent
+	// (no lock held); returning true drops the answer (connection closed).
+	AfterZk(client string, op string, path string, code int32) (drop bool)
 }
 
 // ZkServer is the fake ensemble (one logical server).
@@ -139,6 +142,7 @@ type ZkServer struct {
 	AutoExpire bool
 	Log        func(op ZkOp)
 	Hook       ZkHook
+	lastPath   string
 }
 
 func NewZkServer() *ZkServer {
@@ -664,6 +668,12 @@ func (s *ZkServer) serve(c net.Conn, client string) {
 		if hang {
 			continue
 		}
+		if hk := s.Hook; hk != nil && s.lastPath != "" {
+			if hk.AfterZk(client, opName(op), s.takeLastPath(), code) {
+				s.detach(sess, seq)
+				return
+			}
+		}
 		h := &jout{}
 		h.i32(xid)
 		h.i64(s.curZxid())
@@ -679,6 +689,14 @@ func (s *ZkServer) serve(c net.Conn, client string) {
 			return
 		}
 	}
+}
+
+func (s *ZkServer) takeLastPath() string {
+	s.mu.Lock()
+	defer s.mu.Unlock()
+	p := s.lastPath
+	s.lastPath = ""
+	return p
 }
 
 func (s *ZkServer) curZxid() int64 {
@@ -760,6 +778,7 @@ func (s *ZkServer) handle(sess *zkSession, client string, op int32, in *jin) (co
 	out := &jout{}
 	rec := ZkOp{Client: client, Session: sess.id, Op: opName(op), Path: path, Data: data, Version: version, Flags: flags}
 	finish := func(c int32) (int32, []byte, bool, bool) {
+		s.lastPath = path
 		rec.Res = ZkErrName(c)
 		s.post(&rec, path)
 		s.logOp(rec)
